@@ -347,7 +347,7 @@ pub fn scenarios(prop: &str, tier: &str) -> Vec<Cfg> {
             for (k, pre) in family_u().into_iter().chain(family_o()) {
                 let mut c = Cfg::new("C02", k);
                 c.prefill = (0..pre).map(|_| f(Mode::Gate)).collect();
-                c.specs = vec![f(Mode::Gate), f(Mode::Ready), f(Mode::Yield1), f(Mode::WakeReady)];
+                c.specs = vec![f(Mode::Gate), f(Mode::Ready), f(Mode::Yield1), f(Mode::WakeReady), f(Mode::PanicOnce)];
                 c.ops = ops::PUSH | ops::POLL | ops::POLL_NEW | ops::COMPLETE | ops::WAKE | ops::STALE_WAKE | ops::PUSH_WHEN_FULL;
                 if k.is_ordered() {
                     c.ops |= ops::PUSH_FRONT;
@@ -445,7 +445,7 @@ pub fn scenarios(prop: &str, tier: &str) -> Vec<Cfg> {
             for (k, pre) in family_uo_small() {
                 let mut c = Cfg::new("C05", k);
                 c.prefill = (0..pre).map(|_| f(Mode::Gate)).collect();
-                c.specs = vec![f(Mode::Gate), f(Mode::WakeReady), f(Mode::Relay), f(Mode::Yield1)];
+                c.specs = vec![f(Mode::Gate), f(Mode::WakeReady), f(Mode::Relay), f(Mode::Yield1), f(Mode::PanicOnce)];
                 c.ops = ops::PUSH | ops::POLL | ops::POLL_NEW | ops::COMPLETE | ops::STALE_WAKE | ops::WAKE;
                 c.costly = ops::WAKE | ops::POLL_NEW;
                 c.delta = 1;
@@ -643,6 +643,33 @@ pub fn scenarios(prop: &str, tier: &str) -> Vec<Cfg> {
             for mut c in join_cfgs("C07", n, 2 * n + 3, 2, Epilogue::Drain) {
                 c.delta = 1;
                 v.push(c);
+            }
+            // many inputs (at and around the per-poll budget and the first group size)
+            for nn in [32usize, 33, 60, 61, 62, 122, 123] {
+                for kind in [Kind::Ja(nn), Kind::Tja(nn), Kind::JaP(nn), Kind::TjaP(nn)] {
+                    for variant in 0..3 {
+                        let mut c = Cfg::new("C07", kind);
+                        c.name = format!("{:?} {}", kind, ["all ready", "all ready but the last", "last one fails"][variant]);
+                        c.prefill = (0..nn)
+                            .map(|i| {
+                                if i == nn - 1 && variant == 1 {
+                                    f(Mode::Gate)
+                                } else if i == nn - 1 && variant == 2 && kind.is_try() {
+                                    ChildSpec::failing(Mode::Ready)
+                                } else {
+                                    f(Mode::Ready)
+                                }
+                            })
+                            .collect();
+                        c.ops = ops::POLL | ops::COMPLETE;
+                        c.focus = Some(vec![(nn - 1) as u32]);
+                        c.depth = 4;
+                        c.post_ready_polls = 2;
+                        c.epilogue = Epilogue::Drain;
+                        c.horizon = 4000;
+                        v.push(c);
+                    }
+                }
             }
         }
         // ------------------------------------------------------------------------------------ C08
